@@ -73,6 +73,16 @@ var ctor = map[string]string{
 	"Document": "mk_document", "Metadata": "mk_metadata", "Tool": "mk_tool", "DocumentType": "mk_doctype",
 }
 
+// DropNil makes the printers leave nil elements of repeated message fields out.
+var DropNil bool
+
+// the lists whose nil elements the translations skip; nil elements elsewhere read as empty messages
+var dropNilFields = map[string]bool{
+	"protobom.protobom.NodeList.nodes": true, "protobom.protobom.NodeList.edges": true,
+	"protobom.protobom.Metadata.tools": true, "protobom.protobom.Metadata.authors": true,
+	"protobom.protobom.Metadata.documentTypes": true,
+}
+
 // Msg prints any protobom message as a Coq record value. nil prints as the zero record;
 // use OptMsg where absence matters.
 func Msg(m proto.Message) string {
@@ -145,14 +155,17 @@ func field(m protoreflect.Message, fd protoreflect.FieldDescriptor) string {
 		return List(kvs, func(e kv) string { return "(" + Z(e.k) + ", " + Str(e.v) + ")" })
 	case fd.IsList():
 		l := m.Get(fd).List()
-		parts := make([]string, l.Len())
+		parts := make([]string, 0, l.Len())
 		for i := 0; i < l.Len(); i++ {
 			if fd.Kind() == protoreflect.MessageKind && !l.Get(i).Message().IsValid() {
-				// nil element of a repeated message field: printed as the zero record
-				parts[i] = msg(l.Get(i).Message())
+				// nil element of a repeated message field: printed as the zero record, or left out
+				// when the model is to be compared on the list without its nil elements
+				if !(DropNil && dropNilFields[string(fd.FullName())]) {
+					parts = append(parts, msg(l.Get(i).Message()))
+				}
 				continue
 			}
-			parts[i] = scalar(fd, l.Get(i))
+			parts = append(parts, scalar(fd, l.Get(i)))
 		}
 		return "[" + strings.Join(parts, "; ") + "]"
 	case fd.Kind() == protoreflect.MessageKind:
@@ -175,3 +188,47 @@ func Node(n *sbom.Node) string         { return Msg(n) }
 func Edge(e *sbom.Edge) string         { return Msg(e) }
 func NodeList(nl *sbom.NodeList) string { return Msg(nl) }
 func Document(d *sbom.Document) string { return Msg(d) }
+
+// Lossy reports whether printing m (with DropNil) loses a distinction the code can observe: a nil
+// element in a list other than the top-level ones, or a top-level list made of nil elements only.
+func Lossy(m proto.Message) bool {
+	if m == nil || !m.ProtoReflect().IsValid() {
+		return false
+	}
+	return lossy(m.ProtoReflect())
+}
+
+func lossy(m protoreflect.Message) bool {
+	fds := m.Descriptor().Fields()
+	for i := 0; i < fds.Len(); i++ {
+		fd := fds.Get(i)
+		if fd.IsMap() || fd.Kind() != protoreflect.MessageKind || fd.Message().FullName() == "google.protobuf.Timestamp" {
+			continue
+		}
+		if fd.IsList() {
+			l := m.Get(fd).List()
+			nils := 0
+			for j := 0; j < l.Len(); j++ {
+				e := l.Get(j).Message()
+				if !e.IsValid() {
+					nils++
+					if !dropNilFields[string(fd.FullName())] {
+						return true
+					}
+					continue
+				}
+				if lossy(e) {
+					return true
+				}
+			}
+			if nils > 0 && nils == l.Len() {
+				return true
+			}
+			continue
+		}
+		if m.Has(fd) && lossy(m.Get(fd).Message()) {
+			return true
+		}
+	}
+	return false
+}
